@@ -1,6 +1,21 @@
 HOOK_COMMITS = []
 
 META = {
+    "C01": dict(
+        technique="Lean 4 theorem (order independence of HashBucket) + differential correspondence",
+        text="C01_order: for every hash function and every permutation of a record list with distinct keys the model of HashBucket returns the same value (or the same panic). The model is tied to fshash by the hash correspondence stream (real HashBucket vs compiled Lean model, byte-identical pre-images).",
+        note="Trusted: Lean kernel, the hash stream's generator and canonicalisation, SHA-384 as parameter. Location/environment independence of pack is exercised by the pack stream (correspondence only).",
+    ),
+    "C04": dict(
+        technique="Lean 4 theorems on the HashBucket model (counterexamples proved; injectivity partial) + differential correspondence with a recording hasher",
+        text="The full property is false on the unchanged tree for entries that are neither files nor directories (proved: C04_counter_target/presence/root, for every H); recorded as a known finding because repairing it changes the frozen format (C05). For files and directories every single edit must change the pre-image (checked on the implementation with a recording hasher, compared with the model).",
+        note="Trusted: Lean kernel; the hash stream; SHA-384 collision resistance is not assumed by any theorem.",
+    ),
+    "C05": dict(
+        technique="Lean 4 spec (recursive tree hash) vs implementation model + three-way differential correspondence",
+        text="The frozen format is the Lean definition specHash; the correspondence runs the real HashBucket, an independent Go reference, the Lean spec and the Lean implementation model on the same filesets and requires identical wareIDs (SHA-384 + base58 also implemented in Lean for this).",
+        note="Trusted: Lean kernel; archive codecs and compression are outside the model (differential only).",
+    ),
     "C18": dict(
         technique="Lean 4 theorems on a model of fs/path.go + exhaustive differential correspondence",
         text="Theorems (GoesUp exact, String injective on well-formed values, …) are proved in Lean about an executable model of fs/path.go; the model is tied to the Go code by running both on every string up to a length bound (exhaustive) and random byte strings, so a change of the Go functions shows as a disagreement with a concrete path as replay.",
